@@ -82,6 +82,14 @@ func (m *Machine) strIndex(s Str, idx Int) Val {
 		if idx.IsC() {
 			return CI(8, uint64(s.C[idx.C]))
 		}
+		if len(s.C) <= 64 {
+			// table lookup with a symbolic index: one ite chain, no fork
+			t := CI(8, uint64(s.C[len(s.C)-1])).T()
+			for i := len(s.C) - 2; i >= 0; i-- {
+				t = "(ite (= " + idx.S + " " + CI(64, uint64(i)).T() + ") " + CI(8, uint64(s.C[i])).T() + " " + t + ")"
+			}
+			return Int{W: 8, S: m.ex.Name("tbl", "(_ BitVec 8)", t)}
+		}
 		idx = m.concretize(idx, "string index")
 		return CI(8, uint64(s.C[idx.C]))
 	}
